@@ -196,3 +196,30 @@ Fixpoint run_split_go (c : cache) (pending : option (Z * Z * bool)) (l : list Z)
   end.
 Definition run_cache_split (inp : list Z) : list Z :=
   match inp with mx :: r => run_split_go (cache_init mx) None r | [] => [] end.
+
+(* kind 305: many pieces read through one cache: in = [PL np nf (len pad)* rs cmax nreads (piece off n)*];
+   every read returns the bytes of ITS piece, whatever the cache holds from other pieces *)
+Fixpoint rd_triples (fuel : nat) (l : list Z) : list (Z * Z * Z) :=
+  match fuel, l with
+  | S f, a :: b :: c :: r => (a, b, c) :: rd_triples f r
+  | _, _ => []
+  end.
+Definition run_cached_multi (inp : list Z) : list Z :=
+  match inp with
+  | pl :: np :: nf :: r =>
+      let fs := rd_files (Z.to_nat nf) r in
+      match rdn (2 * Z.to_nat nf) r with
+      | Some (_, rs :: cmax_ :: nr :: rr) =>
+          match new_pieces fs pl (sum_flen fs) (Z.to_nat np) with
+          | Ok ps =>
+              flat_map (fun t => let '(pi, off, n) := t in
+                                 let p := nth (Z.to_nat pi) ps {| plength := 0; psecs := [] |} in
+                                 let c := piece_content (pattern_storage fs) (psecs p) in
+                                 let got := cached_read true c (plength p) rs off n in zlen got :: got)
+                       (rd_triples (Z.to_nat nr) rr)
+          | _ => [-778]
+          end
+      | _ => [-779]
+      end
+  | _ => [-779]
+  end.
